@@ -12,8 +12,8 @@ pub const ID: &str = "C09";
 
 pub fn n_units(tier: Tier) -> u64 {
     match tier {
-        Tier::Quick => 512,
-        Tier::Thorough => 16384,
+        Tier::Quick => 4096,
+        Tier::Thorough => 65536,
     }
 }
 pub fn case_for(seed: u64, tier: Tier, unit: u64, sub: u64) -> Case {
